@@ -160,6 +160,16 @@ def true_value(tree, env, t, vol):
     M = track.get("maxabs", 0.0)
     if not (M < 1e8) or not math.isfinite(float(v)):
         return None
+    # conditioning: the same tree in plain double arithmetic must already agree with the 50-digit value a thousand times
+    # better than the tolerance the implementation is held to.  Where it does not (log or a quotient of a difference that
+    # cancels to rounding noise, e.g. log(volume / I + 0.1) at I = -10) the value is decided by rounding, every double
+    # evaluation order gives another answer, and the point is outside the domain that can be checked.
+    try:
+        vd = ref.eval_tree(tree, env, t, vol, mp=None)
+    except ref.Undefined:
+        return None
+    if not math.isfinite(vd) or abs(vd - float(v)) > 1e-11 * max(1.0, M):
+        return None
     return float(v), M
 
 
